@@ -23,7 +23,7 @@ P = {
  'C14': ("proof", "Spec-level lemmas proved by Verus: the spec functions the code is proved equal to (window mean, weighted mean, population variance, mean absolute deviation, EMA step, TrueRange, least/greatest element) scale with the price unit and shift with the offset exactly as the property states, and the dimensionless formulas (FastStochastic, ROC, MFI-type ratios) are invariant; Max(x) = -Min(-x). Paired with the value clauses that tie each indicator's code to those spec functions. Subset actually proved is listed in the evidence; SlowStochastic/PPO/CCI/ER/OBV composites and Keltner/Chandelier levels follow only by composition and have no dedicated lemma", "7 C14", "Verus spec-level covariance lemmas + functional contracts"),
  'C15': ("proof", "Verus verifies each composite against its parts' contracts only (modular), and the composite's value clause is literally the composition of the parts' public spec functions (BB.average = SMA spec, CCI = SMA/MAD spec of the typical price, ATR = EMA of TR, ...)", "7 C15", "Verus modular call-site reasoning"),
  'C05': ("other", "Determinism: every verified next() returns a spec function of (abstract state, input) -- a body consulting a global, thread-local, clock or RNG cannot be given such a postcondition (Verus has no spec for those calls, so the obligation fails or the construct is rejected, never a pass). Clones: Kani harnesses (bounded period <= 3, all stored values symbolic) show derive(Clone) copies every field bit-exactly into a distinct allocation and that feeding the clone leaves the original untouched. Interleavings across threads are not expressible in either verifier and are not covered", "7 C05", "Verus functional value clauses + Kani clone deep-copy/frame harnesses (bounded)"),
- 'C16': ("proof", "Kani/CBMC, bit-precise and complete (loop-free, every value kani::any()): build() on all 2^5 presence patterns x all f64 bit patterns returns Incomplete iff a field is missing, else Invalid iff one of the six comparisons fails (so any NaN is rejected), else Ok with getters bit-equal to what was set and clone == self; each setter touches exactly its own field from any builder state (order irrelevant, last wins)", "7 C16", "Kani complete harnesses over the real DataItemBuilder"),
+ 'C16': ("proof", "Verus proves build()'s contract for every builder state in the order of the extended reals (Incomplete iff a field is missing, else Invalid iff one of the six comparisons fails -- any NaN fails one --, else Ok with the getters returning what was set); and Kani/CBMC, bit-precise and complete (loop-free, every value kani::any()): build() on all 2^5 presence patterns x all f64 bit patterns returns Incomplete iff a field is missing, else Invalid iff one of the six comparisons fails (so any NaN is rejected), else Ok with getters bit-equal to what was set and clone == self; each setter touches exactly its own field from any builder state (order irrelevant, last wins)", "7 C16", "Kani complete harnesses over the real DataItemBuilder"),
  'C18': ("proof", "Verus proves deque.len() == period is an invariant of every operation of every windowed indicator; a serialized-size spec generated from the struct definitions of the current tree (bincode layout rules assumed) is proved <= K + 8*buffer slots with K <= 256, and buffer slots == sum of periods under the shape invariant; any field whose type is not a fixed-size scalar, Option<f64>, the period-length buffer or an indicator makes the check undecided", "7 C18", "Verus shape invariant + generated layout lemmas"),
  'C19': ("other", "245 generated static trait-bound assertions (one generic use site per documented bound and indicator) type-check against a scratch copy of /repo, with and without the serde feature; decided by rustc's trait solver, not an SMT back end", "7 C19", "rustc trait solver on generated assertion program"),
  'C17': ("proof", "Verus proves the abstract state of each windowed indicator is its window (push_trunc of the previous window) and outputs are functions of that window, so equal last-n inputs give equal outputs (exact arithmetic)", "7 C17", "Verus functional value clauses over push_trunc windows"),
@@ -37,8 +37,8 @@ for pid, (cat, text, ref, tech) in sorted(P.items()):
         'evidence_file': '/verif/evidence/%s.json' % pid,
         'replay_cmd_template': 'python3 check.py --replay {path}',
         'level_claimed': {'category': cat, 'text': text, 'design_ref': 'DESIGN.md section ' + ref},
-        'level_note': (IDEAL + KANI_NOTE) if pid not in ('C16', 'C19') else ('Kani 0.68/CBMC 6.11 trusted; harness states are built fieldwise from kani::any()' if pid == 'C16' else 'rustc trait solver trusted; the assertion list in vlib/traits_lane.py mirrors the documented bounds'),
-        'engine': 'verus-weave' if pid not in ('C16', 'C19') else ('kani' if pid == 'C16' else 'rustc-traits'),
+        'level_note': (IDEAL + KANI_NOTE) if pid not in ('C16', 'C19') else ('Kani 0.68/CBMC 6.11 trusted; harness states are built fieldwise from kani::any(); the Verus part uses the order axioms T3 only (no arithmetic); the five `mut self` setters are outside Verus (external) and covered by Kani' if pid == 'C16' else 'rustc trait solver trusted; the assertion list in vlib/traits_lane.py mirrors the documented bounds'),
+        'engine': 'verus-weave' if pid != 'C19' else 'rustc-traits',
         'technique': tech + (' + Kani harnesses (complete where loop-free; differential-vs-textbook and op-sequence harnesses bounded to period <= 3)' if pid in KP and pid not in ('C16',) else ''),
     })
 NA = [
@@ -51,7 +51,7 @@ M = {
  'hooks': {'guard': 'none', 'enable': 'no hooks: nothing is added to /repo; every check weaves /repo/src into a scratch file and verifies that', 'baseline_off_cmd': 'cd /repo && cargo test --workspace --no-fail-fast --offline', 'source_commits': [], 'add_only': True},
  'engines': [{'name': 'kani', 'path': '/verif/vlib/kani_lane.py', 'serves_properties': KP, 'kind_free_text': 'Kani 0.68 / CBMC harnesses (kani/*.rs) appended as #[cfg(kani)] child modules to a scratch copy of /repo'},
    {'name': 'rustc-traits', 'path': '/verif/vlib/traits_lane.py', 'serves_properties': ['C19'], 'kind_free_text': 'generated trait-bound assertion program, cargo check'},
-   {'name': 'verus-weave', 'path': '/verif/check.py', 'serves_properties': sorted(x for x in P if x not in ('C16', 'C19')), 'kind_free_text': 'contract-based deductive verification: /repo/src woven with sidecar contracts (contracts/*.vspec) into one Verus file, verified by Verus 0.2026.09.13 + Z3; polynomial side lemmas by z3/cvc5'}],
+   {'name': 'verus-weave', 'path': '/verif/check.py', 'serves_properties': sorted(x for x in P if x != 'C19'), 'kind_free_text': 'contract-based deductive verification: /repo/src woven with sidecar contracts (contracts/*.vspec) into one Verus file, verified by Verus 0.2026.09.13 + Z3; polynomial side lemmas by z3/cvc5'}],
  'checks': checks,
  'not_applicable': NA,
  'notes': 'fix: commits in /repo (see known_findings.json): EMA::new overflow, CCI MAD series, ER/RSI/MFI zero-denominator NaN. exit 2 = undecided (tooling / lost anchor / solver limit), never reported as a violation.',
